@@ -20,8 +20,8 @@ def run(tier: str, seed: int) -> dict:
     budget = Budget(420 if thorough else 33)
     F = Findings("C01")
     fam = H.full_family()
-    ex_runs = 1200 if thorough else 60
-    seeds = 25 if thorough else 3
+    ex_runs = 4000 if thorough else 300
+    seeds = 60 if thorough else 8
     extra_depths = 3 if thorough else 2
 
     def depths(view, g, rep):
@@ -41,7 +41,7 @@ def run(tier: str, seed: int) -> dict:
         if c.exc is not None:
             if not isinstance(c.exc, H.ALLOWED_ERRORS):
                 F.add(
-                    f"{mapper_family(c.rep)}:exception:{H.exc_site(c.exc)}",
+                    f"exception:{H.exc_site(c.exc)}",
                     f"{c.where()}: raised {H.exc_text(c.exc)} during {c.phase}; only GeneticEngineError / SynthesisException are allowed",
                     size=c.size,
                 )
@@ -71,7 +71,7 @@ def run(tier: str, seed: int) -> dict:
     rule = (
         f"{len(fam)} family grammars x 8 representations/deciders x max_depth in [reported minimum, +{extra_depths - 1}]: "
         f"all draw outcomes of creation up to {ex_runs} runs per cell ({n_ex}/{len(cells)} cells exhausted; wide ranges at boundaries+midpoint), "
-        f"{seeds} seeds x (2 creations + 3 mutate/crossover steps) per cell, boundary genotypes for GE/stack; "
+        f"{seeds} seeds x (2 creations + 3 mutate/crossover steps) per cell, all GE genotypes of length 3 over a small gene alphabet; "
         f"oracle = independent well-typedness checker; allowed failures: GeneticEngineError, SynthesisException"
         + ("; wall-clock budget reached, remaining cells skipped" if budget.tripped else "")
     )
